@@ -66,7 +66,7 @@ def gen_cases(tier, seed):
             pick = low + [c for c in pick if c not in low][:per]
         if sub == "c05":
             # tolerance arithmetic of the two smallest-vector kernels: near-tie inputs for the dense and for the sparse kernel must be among the cases
-            near = [c for c in cs if c.get("near", 0) > 0]
+            near = sorted([c for c in cs if c.get("near", 0) > 0], key=lambda c: -c["near"])  # the larger perturbation (0.2 symprec) first
             want = [next((c for c in near if c["dense"]), None), next((c for c in near if not c["dense"]), None)]
             want = [c for c in want if c is not None]
             pick = want + [c for c in pick if c not in want][:max(0, per - len(want))]
